@@ -24,11 +24,25 @@ def main():
             rc = mod.replay(chk, a.replay)
         else:
             rc = mod.run(chk)
-    except Exception:
-        # machinery failure: not evidence of anything; fail loudly without a VIOLATION line
+    except BaseException as e:
+        if type(e).__name__ != "ControllerError":
+            if not isinstance(e, Exception):
+                raise
+            # machinery failure: not evidence of anything; fail loudly without a VIOLATION line
+            traceback.print_exc()
+            print(f"[{a.pid}] CHECK-ERROR (machinery failure, no verdict)")
+            sys.exit(2)
+        # the thread controller could not drive the implementation through a schedule (a thread hung in an
+        # uncontrolled wait, blocked with a controlled lock held, ...).  That never happens on the tree the
+        # controller was built for: the schedule-level correspondence no longer checks.
         traceback.print_exc()
-        print(f"[{a.pid}] CHECK-ERROR (machinery failure, no verdict)")
-        sys.exit(2)
+        chk.tie_broken("controller: the implementation could not be driven through a controlled schedule",
+                       {"error": repr(e), "traceback": traceback.format_exc()[-3000:]})
+        chk.cov.setdefault("obligations", 0)
+        chk.cov.setdefault("discharged", 0)
+        chk.cov.setdefault("evaluations", 0)
+        rc = chk.finish()
+        sys.exit(rc)
     sys.exit(rc)
 
 
